@@ -15,7 +15,7 @@ func init() { core.Register(check{}) }
 func (check) ID() string    { return "C17" }
 func (check) Level() string { return "exploration" }
 func (check) Rule() string {
-	return "bounded-exhaustive product, simplest first. Requests: field type (6 quick / 9 thorough) x every ordered list of 1..2 annotations out of {query,path,header,cookie,form,body,raw_body,raw_uri} (64) x level (root, nested, nested2, in-list; thorough adds every ordered list of 3 annotations for string/i32 at root level) x requiredness (3) x body kind (none, JSON, form) x body member present x every subset of the listed sources populated x list spelling (comma / JSON) x own-key query parameter x {ReadHttpValueFallback,TracebackRequredOrRootFields,WriteRequireField,WriteDefaultField,WriteOptionalField} (32) x NoBase64Binary (binary fields), each through BinaryConv.Do+CtxKeyHTTPRequest and HTTPConv.Do; requests are net/http requests wrapped by http.NewHTTPRequestFromStdReq. Responses: type x every ordered list of 1..2 out of {header,cookie,http_code,raw_body} x level (root,nested,nested2) x requiredness x field set/unset x {WriteHttpValueFallback,OmitHttpMappingErrors,UseKitexHttpEncoding} x write options, through BinaryConv.Do+CtxKeyHTTPResponse and HTTPConv.Do with http.HTTPResponse. Plus one struct with more http-mapped root fields than the native field cache (4200) and the text codec (EncodeText/DecodeText) on unknown fields. A case is non-trivial if distinct by its scenario. Later additions: two-level requests, decoys in every other source and (without a JSON body) under the names of un-annotated fields, nested response annotations, a request wrapper that served another query before, every response scenario also with NoCopyString. Round 8: SetOptionalBitmap-parsed descriptor entry; no_body_struct member with three sources x all population subsets. Round 9: integer http texts with a leading zero. Round 10: a response-only annotation listed in front of a request source."
+	return "bounded-exhaustive product, simplest first. Requests: field type (6 quick / 9 thorough) x every ordered list of 1..2 annotations out of {query,path,header,cookie,form,body,raw_body,raw_uri} (64) x level (root, nested, nested2, in-list; thorough adds every ordered list of 3 annotations for string/i32 at root level) x requiredness (3) x body kind (none, JSON, form) x body member present x every subset of the listed sources populated x list spelling (comma / JSON) x own-key query parameter x {ReadHttpValueFallback,TracebackRequredOrRootFields,WriteRequireField,WriteDefaultField,WriteOptionalField} (32) x NoBase64Binary (binary fields), each through BinaryConv.Do+CtxKeyHTTPRequest and HTTPConv.Do; requests are net/http requests wrapped by http.NewHTTPRequestFromStdReq. Responses: type x every ordered list of 1..2 out of {header,cookie,http_code,raw_body} x level (root,nested,nested2) x requiredness x field set/unset x {WriteHttpValueFallback,OmitHttpMappingErrors,UseKitexHttpEncoding} x write options, through BinaryConv.Do+CtxKeyHTTPResponse and HTTPConv.Do with http.HTTPResponse. Plus one struct with more http-mapped root fields than the native field cache (4200) and the text codec (EncodeText/DecodeText) on unknown fields. A case is non-trivial if distinct by its scenario. Later additions: two-level requests, decoys in every other source and (without a JSON body) under the names of un-annotated fields, nested response annotations, a request wrapper that served another query before, every response scenario also with NoCopyString. Round 8: SetOptionalBitmap-parsed descriptor entry; no_body_struct member with three sources x all population subsets. Round 9: integer http texts with a leading zero. Round 10: a response-only annotation listed in front of a request source. Round 11: body-borne string values that need JSON escapes."
 }
 
 func (check) Assumptions() []string {
